@@ -1409,27 +1409,38 @@ func CaseExpr(query *Query, current Map, expr *sqlparser.CaseExpr, opts ...ExprO
 // The existing Exist function is inefficient as it does not break when
 // it finds the first value
 func ExistExpr(query *Query, current Map, expr *sqlparser.ExistsExpr, opts ...ExprOption) (bool, error) {
-	// Backward Navigation
+	// Backward Navigation: the marker goes into a shallow copy of the row
+	current = maps.Clone(current)
+	if current == nil {
+		current = make(Map)
+	}
 	current["<-"] = query.data
-	query.postProcessors = append(query.postProcessors, func() error {
-		delete(current, "<-")
-		return nil
-	})
 	q, err := Prepare(current, expr.Subquery.Select, query.options)
 	if err != nil {
 		return false, err
 	}
+	// the outer row's columns are made visible to the predicate through
+	// merged copies; the nested rows belong to the caller's document
+	from := make([]any, len(q.from))
 	for i := 0; i < len(q.from); i++ {
 		item, ok := q.from[i].(Map)
 		if !ok {
 			return false, INVALID_TYPE.Extend(fmt.Sprintf("failed to build `EXIST` expression. expected an object but found %T", item))
 		}
-		for key, value := range current {
-			item[key] = value
+		merged := maps.Clone(item)
+		if merged == nil {
+			merged = make(Map)
 		}
-		q.from[i] = item
+		for key, value := range current {
+			merged[key] = value
+		}
+		from[i] = merged
 	}
+	q.from = from
 	rs, err := q.exec()
+	if err != nil {
+		return false, err
+	}
 	array, ok := rs.([]any)
 	if !ok {
 		return false, INVALID_TYPE.Extend(fmt.Sprintf("failed to build `EXIST` expression. expected an array but found %T", array))
